@@ -459,6 +459,8 @@ package processor
 //@     invariant [stream-position-untouched-while-the-batch-is-prepared] p.currentIndex == old(p.currentIndex) && p.currentBucketKey == old(p.currentBucketKey)
 //@   loop 8:
 //@     invariant [nothing-of-the-stream-position-is-reset-at-a-batch-boundary] i >= 0 && implies(i == 0, p.currentIndex == old(p.currentIndex) && p.currentBucketKey == old(p.currentBucketKey))
+//@   site call iqr.AppendKnownValues #1:
+//@     assert [a-batch-without-rows-leaves-the-stream-position-alone] implies(i == 0, p.currentIndex == old(p.currentIndex) && p.currentBucketKey == old(p.currentBucketKey))
 //@   bounded processor/streamstats_split_test.go Test_Bounded_StreamstatsBatchSplit 8 rows, window=3 sum and reset_on_change sum by a key, one batch against each of the 7 ways of cutting the rows into two batches (14 comparisons): every row gets the same value
 //@ end
 
